@@ -148,7 +148,7 @@ func TestVerif_C16_SeqnoStressLibp2p(t *testing.T) {
 	rng := r.Rand("stress")
 
 	// ------------------------------------------------------------ part 1
-	ch := &channel{}
+	ch := c16sqInitUnmarshalers(&channel{})
 	var all []c16sqVal
 	rounds := r.N(10, 60)
 	var dupTotal int64
@@ -234,14 +234,13 @@ func TestVerif_C16_SeqnoStressLibp2p(t *testing.T) {
 		total := c16sqGoroutines * perG
 		ticks := make(chan uint64)
 		pub := &c16sqPub{}
-		sender := &channel{
+		sender := c16sqInitUnmarshalers(&channel{
 			name:                 "c16sq",
 			clientIdentity:       ident,
 			publisher:            pub,
 			messageHandlers:      make([]*messageHandler, 0),
-			unmarshalersByType:   make(map[string]func() net.TaggedUnmarshaler),
 			retransmissionTicker: retransmission.NewTicker(ticks),
-		}
+		})
 		sender.SetUnmarshaler(func() net.TaggedUnmarshaler { return &c16sqMsg{} })
 		ctx, cancel := context.WithCancel(context.Background())
 		var inFlight int32
@@ -305,12 +304,11 @@ func TestVerif_C16_SeqnoStressLibp2p(t *testing.T) {
 
 		// ---- receiver behind the duplicate filter, fed by the real processContainerMessage
 		raw := make(chan net.Message, 2*total+16)
-		rx := &channel{
-			name:               "c16sq",
-			clientIdentity:     ident,
-			messageHandlers:    []*messageHandler{{ctx: context.Background(), channel: raw}},
-			unmarshalersByType: make(map[string]func() net.TaggedUnmarshaler),
-		}
+		rx := c16sqInitUnmarshalers(&channel{
+			name:            "c16sq",
+			clientIdentity:  ident,
+			messageHandlers: []*messageHandler{{ctx: context.Background(), channel: raw}},
+		})
 		rx.SetUnmarshaler(func() net.TaggedUnmarshaler { return &c16sqMsg{} })
 		var procErrs int64
 		verifkit.Parallel(len(msgs), 8, func(i int) {
@@ -364,4 +362,16 @@ func TestVerif_C16_SeqnoStressLibp2p(t *testing.T) {
 		}
 	}
 	r.Count("duplicate_seqnos_Send", dupSend)
+}
+
+// c16sqInitUnmarshalers gives the channel an empty unmarshaler registry
+// whatever the registry's concrete map type is (so the monitor keeps
+// compiling when that representation changes).
+func c16sqInitUnmarshalers(c *channel) *channel {
+	f := reflect.ValueOf(c).Elem().FieldByName("unmarshalersByType")
+	if !f.IsValid() || f.Kind() != reflect.Map {
+		panic("verif: channel has no unmarshalersByType map")
+	}
+	reflect.NewAt(f.Type(), unsafe.Pointer(f.UnsafeAddr())).Elem().Set(reflect.MakeMap(f.Type()))
+	return c
 }
